@@ -270,6 +270,26 @@ ArgValProg(i, form) ==
        ExprS(CallE("show", <<iv, S, bv, Bin("-", iv, NatLit(1))>>)),
        PrintS(<<Var("v"), LenE(Var("v"))>>)>>
 ArgValCases == {CaseOf("C02/argval/" \o form \o "/" \o ToString(i), ArgValProg(i, form)) : i \in 1..Len(ArgStrs), form \in {"lit", "var", "ret", "cat"}}
-All == ArgValCases \cup BlockDefCases \cup RetFormCases \cup LoopCallCases \cup RoleCases \cup ArityCases \cup GlobalCases \cup SwapCases \cup NestCases \cup MultiCallCases
+\* ---- a multi-name short definition that RE-USES a name of its own scope and reads it further right (round 14: definitions stored their targets one after
+\* another, "a definition's values cannot refer to the names it introduces"): Go assigns the re-used name, and all values are computed first
+ReDefShapes == {"second-new", "first-new", "three", "expr", "expr-rev", "twice"}
+ReDefWraps == {"bare", "group", "sum"}
+ReDefStmts(sh, w) ==
+  LET R(n) == CASE w = "bare" -> Var(n) [] w = "group" -> Grp(Var(n)) [] w = "sum" -> Bin("+", Var(n), NatLit(0)) IN
+  CASE sh = "second-new" -> <<Def(<<"x", "old">>, <<R("y"), R("x")>>), PrintS(<<Var("x"), Var("old"), Var("y")>>)>>
+    [] sh = "first-new"  -> <<Def(<<"old", "x">>, <<R("x"), R("y")>>), PrintS(<<Var("x"), Var("old"), Var("y")>>)>>
+    [] sh = "three"      -> <<Def(<<"x", "y", "z">>, <<R("y"), R("x"), R("x")>>), PrintS(<<Var("x"), Var("y"), Var("z")>>)>>
+    [] sh = "expr"       -> <<Def(<<"x", "n">>, <<Bin("+", Var("x"), NatLit(1)), R("x")>>), PrintS(<<Var("x"), Var("n"), Var("y")>>)>>
+    [] sh = "expr-rev"   -> <<Def(<<"n", "x">>, <<R("x"), Bin("+", Var("x"), NatLit(1))>>), PrintS(<<Var("x"), Var("n"), Var("y")>>)>>
+    [] sh = "twice"      -> <<Def(<<"x", "p">>, <<R("y"), R("x")>>), Def(<<"y", "q">>, <<R("p"), R("x")>>), PrintS(<<Var("x"), Var("y"), Var("p"), Var("q")>>)>>
+ReDefProg(sh, w, where) ==
+  CASE where = "top" -> <<Def(<<"x", "y">>, <<NatLit(1), NatLit(2)>>)>> \o ReDefStmts(sh, w)
+    [] where = "params" -> <<Func("f", <<Param("x", "int"), Param("y", "int")>>, <<"int">>, ReDefStmts(sh, w) \o <<RetS(<<Bin("+", Bin("*", Var("x"), NatLit(10)), Var("y"))>>)>>),
+                             PrintS(<<CallE("f", <<NatLit(3), NatLit(4)>>)>>), PrintS(<<CallE("f", <<NatLit(5), NatLit(5)>>)>>)>>
+    [] where = "locals" -> <<Func("f", <<Param("a", "int")>>, <<"int">>, <<Def(<<"x", "y">>, <<Var("a"), Bin("+", Var("a"), NatLit(1))>>)>> \o ReDefStmts(sh, w) \o <<RetS(<<Var("x")>>)>>),
+                             PrintS(<<CallE("f", <<NatLit(3)>>)>>), PrintS(<<CallE("f", <<NatLit(7)>>)>>)>>
+    [] where = "strings" -> <<Def(<<"x", "y">>, <<StrL("one"), StrL("two")>>)>> \o (IF sh \in {"expr", "expr-rev"} THEN <<Def(<<"x", "n">>, <<Bin("+", Var("x"), StrL("!")), Var("x")>>), PrintS(<<Var("x"), Var("n")>>)>> ELSE ReDefStmts(sh, IF w = "sum" THEN "bare" ELSE w))
+ReDefCases == {CaseOf("C02/redef/" \o sh \o "/" \o w \o "/" \o where, ReDefProg(sh, w, where)) : sh \in ReDefShapes, w \in ReDefWraps, where \in {"top", "params", "locals", "strings"}}
+All == ReDefCases \cup ArgValCases \cup BlockDefCases \cup RetFormCases \cup LoopCallCases \cup RoleCases \cup ArityCases \cup GlobalCases \cup SwapCases \cup NestCases \cup MultiCallCases
 ASSUME ndJsonSerialize("fam.ndjson", SetToSeq(All))
 =============================================================================
